@@ -170,6 +170,39 @@ theorem Sat_update_of_not_occurs (M : Model) (ρ : Valuation) (hρ : Admissible 
   rw [← hsame th.prop (by simp)]
   exact this
 
+/-- a sequent does not notice the values of constants that do not occur in it -/
+theorem Sat_congr (M : Model) (ρ ρ' : Valuation) (hρ : Admissible M ρ) (th : Thm)
+    (hag : ∀ t ∈ th.hyps ++ [th.prop], ∀ a ∈ atoms t, a.1 = 2 → ρ' 2 a.2.1 a.2.2 = ρ 2 a.2.1 a.2.2)
+    (h : Sat M ρ th) : Sat M ρ' th := by
+  intro ρ2 hρ2 hagree hhyps
+  -- the variables of ρ2 with the constants of ρ
+  let ρ3 : Valuation := fun k n S => if k = 2 then ρ 2 n S else ρ2 k n S
+  have hρ3 : Admissible M ρ3 := by
+    intro k n S
+    show (if k = 2 then ρ 2 n S else ρ2 k n S) < _
+    split
+    · exact hρ 2 n S
+    · exact hρ2 k n S
+  have hagree3 : ∀ n S, ρ3 2 n S = ρ 2 n S := fun n S => by simp [ρ3]
+  have hsame : ∀ t ∈ th.hyps ++ [th.prop], sem M ρ3 [] [] t = sem M ρ2 [] [] t := by
+    intro t ht
+    apply sem_congr
+    intro a ha
+    obtain ⟨k, n, S⟩ := a
+    show (if k = 2 then ρ 2 n S else ρ2 k n S) = ρ2 k n S
+    split
+    · rename_i hk
+      subst hk
+      rw [hagree, hag t ht _ ha rfl]
+    · rfl
+  have := h ρ3 hρ3 hagree3 (fun hh hm => by
+    show sem M ρ3 [] [] hh = 1
+    rw [hsame hh (by simp [hm])]
+    exact hhyps hh hm)
+  show sem M ρ2 [] [] th.prop = 1
+  rw [← hsame th.prop (by simp)]
+  exact this
+
 /-- the name of the new constant is none of `equals`, `implies`, `all` -/
 def nonLogicalName (name : String) : Bool := name != "equals" && name != "implies" && name != "all"
 
@@ -205,6 +238,15 @@ theorem coreOK_inst (σ : String → Ty) {name : String} {T : Ty} {v : View} (h 
     exact apart_inst σ σ S T this hS
   · have := checkedGetType_inst σ [] v.rhs v.B htyped
     simpa [instView] using this
+
+def eqAt (T : Ty) (a b : Term) : Term := .comb (.comb (.const "equals" (Ty.fn T (Ty.fn T Ty.bool))) a) b
+
+/-- the constant definition `c = t` (no arguments) -/
+def constDef (name : String) (T : Ty) (rhs : Term) : Term := eqAt T (.const name T) rhs
+
+theorem view?_constDef (name : String) (T : Ty) (rhs : Term) :
+    view? name T (constDef name T rhs) = some ⟨[], T, rhs⟩ := by
+  simp [view?, constDef, eqAt, stripComb, varArgs?, Ty.domain?_fn]
 
 /-- every type variable has one element -/
 def oneModel : Model := ⟨fun _ => 0, fun _ => 0, fun _ _ => 0⟩
